@@ -7,8 +7,8 @@
 #include <pthread.h>
 #include "verif_rt.h"
 
-static dispatch_queue_global_t g_rq;
-static int g_obj;
+static dispatch_queue_global_t g_rq, g_oq;   /* default global queue; its overcommit sibling */
+static int g_obj, g_oobj;
 static _Atomic int g_fail;
 #define MAXI 4096
 static _Atomic int g_runs[MAXI];
@@ -58,11 +58,29 @@ static void *burster(void *a)
 	return NULL;
 }
 
+/* (A, B) pairs on the overcommit queue: A blocks until B, submitted just after it, has run.  Nothing but the
+ * library's own thread requests can get B served there (no pool monitor for overcommit queues). */
+static dispatch_semaphore_t g_pair_sem[64];
+static void pair_a(void *c) { long k = (long)c; dispatch_semaphore_wait(g_pair_sem[k % 64], DISPATCH_TIME_FOREVER); atomic_fetch_add(&g_runs[2 * k], 1); atomic_fetch_add(&g_done, 1); }
+static void pair_b(void *c) { long k = (long)c; atomic_fetch_add(&g_runs[2 * k + 1], 1); dispatch_semaphore_signal(g_pair_sem[k % 64]); atomic_fetch_add(&g_done, 1); }
+
 static void proj(FILE *f, const vrt_rec_t *r)
 {
 	if (r->kind == VRT_MARK) { fprintf(f, "{\"e\":\"%s\",\"ncpu\":%ld,\"pool\":%ld,\"pending\":%ld}\n", r->name, r->a, r->b, r->c); return; }
 	if (r->kind == VRT_API) { fprintf(f, "{\"e\":\"%s\",\"t\":%d,\"i\":%ld}\n", r->name, r->tid, r->a); return; }
-	if (r->kind != VRT_ATOMIC || r->obj != g_obj) return;
+	if (r->kind != VRT_ATOMIC) return;
+	if (r->cls == 2) {
+		/* item list of a root queue: the drain_one / push protocol (RootTrace: a worker that lost the race to
+		 * clear the tail must request a thread for the item that appeared) */
+		const char *x = r->site->dvs_expr;
+		/* spin predicates of the contended wait are not steps of the protocol */
+		if (!strcmp(r->site->dvs_op, "load") && strcmp(r->site->dvs_func, "_dispatch_queue_class_probe")) return;
+		fprintf(f, "{\"e\":\"Rl\",\"t\":%d,\"q\":%d,\"f\":\"%s\",\"w\":\"%s\",\"op\":\"%s\",\"ok\":%d,\"oldnull\":%s,\"newnull\":%s}\n", r->tid, r->obj,
+				r->site->dvs_func, strstr(x, "tail") ? "tail" : strstr(x, "head") ? "head" : "?", r->site->dvs_op, r->ok,
+				r->oldv == 0 ? "true" : "false", r->newv == 0 ? "true" : "false");
+		return;
+	}
+	if (r->obj != g_obj) return;
 	const char *w = strstr(r->site->dvs_expr, "dgq_pending") ? "pending" : strstr(r->site->dvs_expr, "dgq_thread_pool_size") ? "pool" : NULL;
 	if (!w) return;
 	fprintf(f, "{\"e\":\"Rq\",\"t\":%d,\"w\":\"%s\",\"f\":\"%s\",\"op\":\"%s\",\"ok\":%d,\"old\":%d,\"new\":%d}\n", r->tid, w,
@@ -87,6 +105,10 @@ int main(int argc, char **argv)
 	vrt_set_projector(proj);
 	vrt_add_class("dgq_pending", 1);
 	vrt_add_class("dgq_thread_pool_size", 1);
+	vrt_add_class("dq_items_tail", 2);
+	vrt_add_class("dq_items_head", 2);
+	vrt_add_class("_os_mpsc_tail", 2);
+	vrt_add_class("_os_mpsc_head", 2);
 	vrt_set_hang_seconds(60);
 	(void)vrt_tid();
 	g_rq = (dispatch_queue_global_t)dispatch_get_global_queue(0, 0);
@@ -99,6 +121,9 @@ int main(int argc, char **argv)
 	atomic_store(&g_done, 0);
 	int ncpu = (int)dispatch_hw_config(active_cpus);
 	g_obj = vrt_register(g_rq, sizeof(struct dispatch_queue_global_s), 1);
+	g_oq = (dispatch_queue_global_t)dispatch_get_global_queue(0, DISPATCH_QUEUE_OVERCOMMIT);
+	g_oobj = vrt_register(g_oq, sizeof(struct dispatch_queue_global_s), 2);
+	for (int i = 0; i < 64; i++) g_pair_sem[i] = dispatch_semaphore_create(0);
 	vrt_mark("Reset", ncpu, g_rq->dgq_thread_pool_size, g_rq->dgq_pending);
 	for (int r = 0; r < rounds; r++) {
 		/* (A) pool exhaustion */
@@ -112,6 +137,19 @@ int main(int argc, char **argv)
 		wait_done(g_nblock + 1, "exhaustion");
 		for (int i = 0; i <= g_nblock; i++) if (atomic_load(&g_runs[i]) != 1) oracle_fail("global-queue item did not run exactly once", i, atomic_load(&g_runs[i]));
 		dispatch_release(g_gate);
+		/* (C) dependent pairs on the overcommit queue */
+		memset((void *)g_runs, 0, sizeof(g_runs));
+		atomic_store(&g_done, 0);
+		int npairs = 1500;
+		for (long k = 0; k < npairs; k++) {
+			dispatch_async_f(g_oq->_as_dq, (void *)k, pair_a);
+			if (vrt_rand() % 4 == 0) { volatile int x = 0; int n = (int)(vrt_rand() % 400); for (int i = 0; i < n; i++) x++; }
+			dispatch_async_f(g_oq->_as_dq, (void *)k, pair_b);
+			if ((k & 31) == 31) { wait_done((int)(2 * (k + 1)), "pairs"); }
+			vrt_progress();
+		}
+		wait_done(2 * npairs, "pairs");
+		for (int i = 0; i < 2 * npairs; i++) if (atomic_load(&g_runs[i]) != 1) oracle_fail("overcommit global-queue item did not run exactly once", i, atomic_load(&g_runs[i]));
 		/* (B) bursts from several threads */
 		memset((void *)g_runs, 0, sizeof(g_runs));
 		atomic_store(&g_done, 0);
